@@ -67,7 +67,7 @@ structure FS where
 /-- body of the innermost loop for `point = j` with `frontCounter = c`:
 `numberOfDominatingPoints[j]--; if(... == 0){ nextFront.push_back(j); ranks[j] = c; }`.
 (The C++ counter is a `size_t`; it is never decremented at 0, see
-`fastSort_counters_exact` in `Props/C13.lean`.) -/
+`fastSort_counters_never_wrap` in `Props/C13.lean`.) -/
 def visit (c : Nat) (st : FS) (j : Nat) : FS :=
   let v := st.cnt.getD j 0
   let st1 := { st with cnt := st.cnt.setIfInBounds j (v - 1) }
@@ -78,7 +78,7 @@ def round (pts : List Pt) (c : Nat) (front : List Nat) (st : FS) : FS :=
   front.foldl (fun st e => (domList pts e).foldl (visit c) st) { st with next := #[] }
 
 /-- the `while(!front.empty())` loop; `fuel` bounds the number of passes
-(`fastSort_front_empty` shows that `n + 1` passes always reach the empty front) -/
+(`fastSort_terminates` shows that `n + 1` passes always reach the empty front) -/
 def loop (pts : List Pt) : Nat → Nat → List Nat → FS → List Nat × FS
   | 0, _, front, st => (front, st)
   | fuel + 1, c, front, st =>
